@@ -417,3 +417,12 @@ PROP = with_src(C18(), share=12, functions=["_parse_keywords", "_parse_project_u
 # observable) — proved equal to Email.getPayload (the payload step that Email.parseEmail inlines)
 PROP = with_src(PROP, share=12, functions=["_get_payload"], module=["PkgProofs.Props.Src.X7Payload"],
                 theorems=["Src._get_payload_translated", "Src._get_payload_eq_model_str", "Src._get_payload_eq_model_bytes"])
+# x9: `parse_email` itself, regenerated from metadata.py — the standard-library parser call is an oracle call (key: the source text of
+# the call) answering the message value (header list + payloads, the data `Email.Doc` takes), `decode_header` / `make_header` answers
+# are data carried by the `Header` values, the visiting order `sorted(frozenset(parsed.keys()))` is computed (`Src.orderOf`, a
+# permutation of the deduplicated names), the two dicts of lists are functional updates, and the message mutation of `_get_payload`
+# (`del msg["content-transfer-encoding"]`) reaches the `except ValueError` branch through `_get_payload__io` (message = state of
+# PyX9.SM) — proved equal to `Email.parseEmail doc (Src.orderOf doc)` up to look-ups in the two result dicts (Src.DictRel/UnparsedRel)
+PROP = with_src(PROP, share=8, functions=["parse_email", "_get_payload__io"], module=["PkgProofs.Props.Src.ParseEmail"],
+                theorems=["Src.parse_email_translated", "Src._get_payload__io_translated", "Src._get_payload__io_eq_model",
+                          "Src.orderOf_perm", "Src.parse_email_eq_model"])
